@@ -18,16 +18,20 @@ VARS = {
     "ms": ("map", [(SK("a"), ("string", 1))]),
     "mi": ("map", [({"t": "int", "v": 1}, ("int",)), ({"t": "int", "v": 2}, ("int",))]),
     "n": ("null",),
+    # time values are concrete here (the calendar model is C11's subject); 2009-02-13T23:31:30Z and 2021-03-04T05:06:07.5Z
+    "t1": ("const", {"t": "timestamp", "us": 1234567890000000}), "t2": ("const", {"t": "timestamp", "us": 1614834367500000}),
+    "q1": ("const", {"t": "duration", "us": 3723000000}), "q2": ("const", {"t": "duration", "us": -86400500000}),
 }
 TYPE_OF = {"i1": "int", "i2": "int", "u1": "uint", "u2": "uint", "d1": "double", "d2": "double", "b1": "bool", "b2": "bool",
            "s1": "string", "s2": "string", "s0": "string", "y1": "bytes", "y2": "bytes", "li": "list", "li3": "list", "le": "list",
-           "ls": "list", "lb": "list", "ld": "list", "m": "map", "ms": "map", "mi": "map", "n": "null_type"}
+           "ls": "list", "lb": "list", "ld": "list", "m": "map", "ms": "map", "mi": "map", "n": "null_type",
+           "t1": "timestamp", "t2": "timestamp", "q1": "duration", "q2": "duration"}
 
 # leaves by CEL type (expression text)
 LEAVES = {
     "int": ["i1", "i2"], "uint": ["u1", "u2"], "double": ["d1", "d2"], "bool": ["b1", "b2"],
     "string": ["s1", "s2"], "bytes": ["y1", "y2"], "list<int>": ["li", "li3"], "list<string>": ["ls"],
-    "map": ["m"], "null_type": ["n"],
+    "map": ["m"], "null_type": ["n"], "timestamp": ["t1", "t2"], "duration": ["q1", "q2"],
 }
 BASE = {"list<int>": "list", "list<string>": "list", "list<bool>": "list", "list<double>": "list"}
 
@@ -94,6 +98,20 @@ FORMS = [
                                                            ("string", "string"), ("bytes", "bytes"), ("list<int>", "list"),
                                                            ("map", "map"), ("null_type", "null_type"), ("int", "uint"), ("string", "bytes"))],
     ("bool", "(type(type({0})) == type)", ["int"]),
+    # time arithmetic (concrete instants; class and runner agreement only)
+    ("timestamp", "({0} + {1})", ["timestamp", "duration"]), ("timestamp", "({1} + {0})", ["timestamp", "duration"]),
+    ("timestamp", "({0} - {1})", ["timestamp", "duration"]), ("duration", "({0} - {1})", ["timestamp", "timestamp"]),
+    ("duration", "({0} + {1})", ["duration", "duration"]), ("duration", "({0} - {1})", ["duration", "duration"]),
+    *[("bool", f"({{0}} {op} {{1}})", [t, t]) for op in ("<", "<=", ">", ">=", "==", "!=") for t in ("timestamp", "duration")],
+    *[("int", f"{{0}}.{g}()", ["timestamp"]) for g in ("getFullYear", "getMonth", "getDate", "getDayOfMonth", "getDayOfWeek", "getDayOfYear",
+                                                       "getHours", "getMinutes", "getSeconds", "getMilliseconds")],
+    ("int", "{0}.getHours('+05:30')", ["timestamp"]), ("int", "{0}.getDate('America/New_York')", ["timestamp"]),
+    *[("int", f"{{0}}.{g}()", ["duration"]) for g in ("getHours", "getMinutes", "getSeconds", "getMilliseconds")],
+    ("timestamp", "timestamp('2009-02-13T23:31:30Z')", []), ("duration", "duration('1h2m3s')", []),
+    ("string", "string({0})", ["timestamp"]), ("string", "string({0})", ["duration"]), ("int", "int({0})", ["timestamp"]),
+    ("timestamp", "timestamp(string({0}))", ["timestamp"]), ("duration", "duration(string({0}))", ["duration"]),
+    ("bool", "(type({0}) == timestamp)", ["timestamp"]), ("bool", "(type({0}) == duration)", ["duration"]),
+    ("type", "type({0})", ["timestamp"]), ("type", "type({0})", ["duration"]),
 ]
 # literal-bearing forms: concrete literals inside otherwise symbolic programs
 LITERAL_FORMS = [
@@ -109,6 +127,14 @@ LITERAL_FORMS = [
     ("int", "[10, 20, 30][{0}]", ["int"]), ("string", "{{1: 'a', 2: 'b'}}[{0}]", ["int"]),
     ("bool", "has({{'a': {0}}}.a)", ["int"]),
 ]
+
+
+def form_id(tpl, args):
+    """semantic name of a form: template with argument types, e.g. `(double + double)`"""
+    try:
+        return tpl.format(*args).replace("{{", "{").replace("}}", "}")
+    except (IndexError, KeyError):
+        return tpl
 
 
 def skeletons(depth, limit_per_form=None):
@@ -129,7 +155,7 @@ def skeletons(depth, limit_per_form=None):
                 continue
             seen.add(src)
             d1.setdefault(typ, []).append(src)
-            yield typ, src
+            yield typ, src, form_id(tpl, args)
     if depth < 2:
         return
     # depth 2: one argument replaced by a depth-1 expression of the same type (first two per type, rotating)
@@ -146,12 +172,12 @@ def skeletons(depth, limit_per_form=None):
                 if src in seen or len(src) > 90:
                     continue
                 seen.add(src)
-                yield typ, src
+                yield typ, src, form_id(tpl, args)
 
 
 def vars_in(src):
     import re
-    names = set(re.findall(r"\b[a-z]+[0-9]?\b", src))
+    names = set(re.findall(r"(?<![.'\w])[a-z]+[0-9]?\b(?!\()", src))
     return sorted(n for n in names if n in VARS)
 
 
